@@ -813,7 +813,7 @@ func (g *fgen) genBody(depth int) []fact {
 			}
 		case k < 88 && depth < 4:
 			out = append(out, fact{kind: "sub", sub: g.genSub(depth+1, false)})
-		case k < 95 && depth < 3 && g.creates < 3:
+		case k < 97 && depth < 3 && g.creates < 3:
 			g.creates++
 			cs := g.genSub(depth+1, true)
 			out = append(out, fact{kind: "create", sub: cs})
@@ -845,7 +845,7 @@ func (g *fgen) genSub(depth int, create bool) *fsub {
 		s.body = g.genBody(depth + 2) // shallow init code
 		// runtime code returned by the init code: empty, tiny, 0xEF-prefixed, or large enough (600 / 20000 zero bytes = 120k / 4M gas of
 		// code deposit) that a creation inside a gas-limited frame fails at the deposit, after the init code ran
-		s.runtime = [][]byte{{}, {0x00}, {0x60, 0x00}, {0xef, 0x00}, make([]byte, 600), make([]byte, 20000), make([]byte, 24577)}[g.r.Intn(7)] // the last one exceeds MaxCodeSize
+		s.runtime = [][]byte{{}, {0x00}, {0x60, 0x00}, {0xef, 0x00}, make([]byte, 600), make([]byte, 20000), make([]byte, 24577), make([]byte, 600), make([]byte, 20000)}[g.r.Intn(9)] // 24577 exceeds MaxCodeSize
 		s.end = []byte{opRETURN, opRETURN, opRETURN, opREVERT, opINVALID, opSTOP}[g.r.Intn(6)]
 		if g.efCodes && g.r.Chance(30) {
 			// the init code runs to its end, with whatever it did and the endowment it got, and only then is the creation
